@@ -60,7 +60,13 @@ static int ops()
             else if (op == "minR") out = showR(std::min(A(), B()));
             else if (op == "maxR") out = showR(std::max(A(), B()));
         } else if (x.size() == 2) {
-            if (op == "size") out = std::to_string(A().size());
+            // the operand is the object itself
+            if (op == "addSelf") { R r = A(); r += r; out = showR(r); }
+            else if (op == "subSelf") { R r = A(); r -= r; out = showR(r); }
+            else if (op == "mulSelf") { R r = A(); r *= r; out = showR(r); }
+            else if (op == "andSelf") { R r = A(); r &= r; out = showR(r); }
+            else if (op == "orSelf") { R r = A(); r |= r; out = showR(r); }
+            else if (op == "size") out = std::to_string(A().size());
             else if (op == "empty") out = showB(A().empty());
         }
         std::cout << out << "\n";
@@ -198,6 +204,21 @@ static void oracle_int8()
             ++cases;
             Q r((T)a, (T)b);
             if (r.size() != (uint32_t)(b - a + 1)) fail(22, "size T=int8 r=[%d,%d] got=%u", a, b, r.size());
+            // the operand may be the object itself: same set semantics as for two equal operands
+            {
+                int mn = 1 << 30, mx = -(1 << 30);
+                for (int x = a; x <= b; ++x)
+                    for (int y = a; y <= b; ++y) { mn = std::min(mn, x * y); mx = std::max(mx, x * y); }
+                auto chk2 = [&](int id, const char* nm, const Q& g, int s, int f) {
+                    if (s < lo || f > hi) return;
+                    if (!((int)g.first() == s && (int)g.last() == f)) fail(id, "%s T=int8 r=[%d,%d] got=[%d,%d] want=[%d,%d]", nm, a, b, g.first(), g.last(), s, f);
+                };
+                { Q t = r; t += t; chk2(25, "addSelf", t, a + a, b + b); }
+                { Q t = r; t -= t; chk2(26, "subSelf", t, a - b, b - a); }
+                { Q t = r; t *= t; chk2(27, "mulSelf", t, mn, mx); }
+                { Q t = r; t &= t; chk2(28, "andSelf", t, a, b); }
+                { Q t = r; t |= t; chk2(29, "orSelf", t, a, b); }
+            }
             if (r.empty()) fail(23, "empty T=int8 r=[%d,%d]", a, b);
         }
 }
